@@ -141,7 +141,8 @@ class MagicNumberRule(MultiLanguageLintRule):  # thailint: ignore[srp]
         if not context.file_path:
             return False
 
-        file_path = Path(context.file_path)
+        # Judge the path inside the project, not the directories leading to it
+        file_path = Path(path_in_project(context))
         return any(self._matches_pattern(file_path, pattern) for pattern in config.ignore)
 
     def _matches_pattern(self, file_path: Path, pattern: str) -> bool:
